@@ -206,11 +206,10 @@ def plan_by_ref(engine, base, prop, tier, ref):
 
 def _work(prop, tier, base, refs, recheck_every, deadline):
     """Pool task: run one chunk of plans in a fresh child of this worker."""
-    return in_child(lambda: _work_chunk(prop, tier, base, refs, recheck_every, deadline), max(120, deadline - time.time() + 300), 'chunk %s..' % refs[:1])
+    return in_child(lambda: _work_chunk(prop, tier, base, refs, recheck_every, deadline), max(120, deadline - time.time()) + 1800, 'chunk %s..' % refs[:1])
 
 
 def _work_chunk(prop, tier, base, refs, recheck_every, deadline):
-    faulthandler.dump_traceback_later(max(60, int(deadline - time.time()) + 240), exit=True)
     ct0 = os.times()
     t_cpu0 = ct0.user + ct0.system + ct0.children_user + ct0.children_system
     engine = engine_for(prop)
@@ -224,6 +223,8 @@ def _work_chunk(prop, tier, base, refs, recheck_every, deadline):
             out['stopped_early'] = True
             break
         plan = plan_by_ref(engine, base, prop, tier, ref)
+        # hang detector, re-armed for every run (a single run never legitimately takes this long)
+        faulthandler.dump_traceback_later(900, exit=True)
         ctx = RunSummary(execute_plan(engine, plan, prop, known))
         out['runs'] += 1
         out['stats'].update(ctx.stats)
@@ -461,7 +462,7 @@ def run_check(prop, tier, base_seed=None, budget_s=None, workers=None, runs=None
                 next_i += len(idx)
                 pending.add(ex.submit(_work, prop, tier, base_seed, idx, 40, deadline))
         submit_more()
-        hard_deadline = deadline + 600
+        hard_deadline = deadline + 2400
         while pending:
             done, _ = wait(pending, timeout=max(1.0, hard_deadline - time.time()), return_when=FIRST_COMPLETED)
             if not done:
